@@ -594,6 +594,40 @@ func (env *SpecEnv) call(e *ECall) *Val {
 		return scalar(app(SString, "str.replace_all", arg(0).T, arg(1).T, arg(2).T), specStrT)
 	case "bytes":
 		return scalar(ex.bytesOf(env.st, env.cur, arg(0).T), specStrT)
+	case "allspace":
+		// every byte is ASCII white space or >= 0x80 (part of a multi-byte white-space rune)
+		return scalar(Term{"(str.in_re " + arg(0).T.S + " (re.* (re.union (str.to_re \" \") (re.range \"\\u{9}\" \"\\u{d}\") (re.range \"\\u{80}\" \"\\u{ff}\"))))", SBool}, specBoolT)
+	case "isspace":
+		// ASCII white space byte
+		b := arg(0).T
+		return scalar(mkOr(mkEq(b, intLit(32)), mkAnd(app(SBool, "<=", intLit(9), b), app(SBool, "<=", b, intLit(13)))), specBoolT)
+	case "allof":
+		// allof(t, c): t consists only of repetitions of the one-character string c
+		return scalar(Term{"(str.in_re " + arg(0).T.S + " (re.* (str.to_re " + arg(1).T.S + ")))", SBool}, specBoolT)
+	case "join":
+		// join(elems, sep, n) for a literal n: elems[0] ++ sep ++ ... ++ elems[n-1]
+		xs := arg(0)
+		sep := arg(1)
+		nlit, ok := e.Args[2].(*EInt)
+		if !ok {
+			env.fail("join needs a literal count")
+		}
+		var n int
+		fmt.Sscanf(nlit.V, "%d", &n)
+		if n == 0 {
+			return scalar(strLit(""), specStrT)
+		}
+		var parts []Term
+		for i := 0; i < n; i++ {
+			if i > 0 {
+				parts = append(parts, sep.T)
+			}
+			parts = append(parts, env.index(xs, scalar(intLit(int64(i)), specIntT), e).T)
+		}
+		if len(parts) == 1 {
+			return scalar(parts[0], specStrT)
+		}
+		return scalar(app(SString, "str.++", parts...), specStrT)
 	case "int8":
 		return scalar(wrapInt(types.Typ[types.Int8], arg(0).T), types.Typ[types.Int8])
 	case "min":
